@@ -155,6 +155,10 @@ structure CEnv where
   mkHash : String → List Sexp → Option Sexp
   macros : String → Option Macro
   builtin : String → Bool
+  /-- does `bindsName` look into the expansions of macro calls? (generator.go as of 70c349a:
+  no; with fixes/C15-04: yes. The driver takes it from the regenerated table
+  `Generated.SQCtx.rebindScansExpansions`.) -/
+  scanExpansions : Bool := false
 
 /-- the case labels of the switch in GenerateCallBySymbol, in order (T1: `emit_special_forms`) -/
 def specialForms : List String :=
@@ -282,20 +286,101 @@ def genBrk (isBreak : Bool) (loops : List Loop) (args : List Sexp) (s : GenSt) :
         | none => none
   | _ => none
 
-/-- buildSexpFun: a new generator — scopes 0, Tail true, the function's name — compiles the
-body with GenerateBegin; RemoveScope, Return follow. The loop stack is the interpreter's and
-stays what it is. -/
-def genFun (rec : GenSt → Sexp → GenRes) (name : String) (params : Sexp) (body : List Sexp) (s : GenSt) : GenRes :=
+/-- the name GenSymbol("__anon") gives an anonymous function: no symbol a program can write -/
+def anonName : String := "__anon#"
+
+/-! `rebindsOwnName` (generator.go, since /repo 70c349a): a function that binds or assigns its
+own name — as a parameter or as the target of def / set / defmac / mdef / let / letseq / range /
+fn / defn / func / method / `=` / `:=` anywhere in its body — is compiled with funcname = "":
+calls through the name stay ordinary calls. The test is syntactic, on the body as written. -/
+
+def isSymNamed (x : Sexp) (name : String) : Bool := x = .atom (.sym name)
+
+/-- formalsBind: `f`, the lazy `#f`, the typed `f:` -/
+def formalsBind (formals : List Sexp) (name : String) : Bool :=
+  formals.any (fun f => match f with
+    | .atom (.sym s) => s = name || s = "#" ++ name || s = name ++ ":"
+    | _ => false)
+
+/-- assignsIn: `name = v`, `name := v`, `a name = v w` among the elements (anything that is not
+a symbol — commas aside, which these forms do not contain — ends the run of targets) -/
+def assignsIn (elems : List Sexp) (name : String) : Bool :=
+  (elems.foldl (fun (acc : Bool × Bool) x =>
+    match x with
+    | .atom (.sym s) =>
+      if s = "=" || s = ":=" then (acc.1, acc.2 || acc.1)
+      else if s = name then (true, acc.2)
+      else acc
+    | _ => (false, acc.2)) (false, false)).2
+
+/-- the two switches over the head symbol in `bindsName` -/
+def headBinds (f : String) (args : List Sexp) (name : String) : Bool :=
+  (if f = "def" || f = "set" || f = "defmac" then
+      (match args with | a :: _ => isSymNamed a name | [] => false)
+    else if f = "mdef" then args.length > 1 && formalsBind args.dropLast name
+    else if f = "let" || f = "letseq" then
+      (match args with
+        | .arr bs :: _ => (match listToArray bs with
+          | some xs => (List.range (xs.length / 2)).any (fun i => isSymNamed (xs.getD (2 * i) .nil) name)
+          | none => false)
+        | _ => false)
+    else if f = "range" then
+      (match args with | a :: b :: _ => isSymNamed a name || isSymNamed b name | _ => false)
+    else false)
+  || (if f = "fn" then
+      (match args with
+        | .arr ps :: _ => (match listToArray ps with | some xs => formalsBind xs name | none => false)
+        | _ => false)
+    else if f = "defn" || f = "defmac" || f = "func" || f = "method" then
+      (match args with | a :: _ => isSymNamed a name | [] => false)
+      || (match args with
+        | _ :: .arr ps :: _ => (match listToArray ps with | some xs => formalsBind xs name | none => false)
+        | _ => false)
+    else false)
+
+/-- `bindsName`; with `E.scanExpansions` (fixes/C15-04) a macro call also binds what its
+expansion binds. Fuel bounds the nesting (and a macro that expands for ever). -/
+def bindsName (E : CEnv) (name : String) : Nat → Sexp → Bool
+  | 0, _ => false
+  | n + 1, expr =>
+    match expr with
+    | .arr elems =>
+      match listToArray elems with
+      | some xs => assignsIn xs name || xs.any (bindsName E name n)
+      | none => false
+    | .cons h t =>
+      match listToArray t with
+      | none => bindsName E name n h || bindsName E name n t
+      | some args =>
+        (match h with
+          | .atom (.sym f) =>
+            headBinds f args name
+            || (E.scanExpansions && (match E.macros f with
+                | some m => (match expand E.mkHash m args with
+                  | some x => bindsName E name n x
+                  | none => false)
+                | none => false))
+          | _ => false)
+        || assignsIn (h :: args) name || (h :: args).any (bindsName E name n)
+    | _ => false
+
+def rebindsOwnName (E : CEnv) (name : String) (formals : List Sexp) (body : List Sexp) : Bool :=
+  name ≠ "" && (formalsBind formals name || body.any (bindsName E name 100))
+
+/-- buildSexpFun: a new generator — scopes 0, Tail true, the function's name (none when the
+function rebinds its own name) — compiles the body with GenerateBegin; RemoveScope, Return
+follow. The loop stack is the interpreter's and stays what it is. `name` = "" for `fn`:
+its funcname is the gensym `anonName`. -/
+def genFun (E : CEnv) (rec : GenSt → Sexp → GenRes) (name : String) (params : Sexp) (body : List Sexp) (s : GenSt) : GenRes :=
   match listToArray params with
   | none => none
   | some ps =>
     if ps.any (fun x => (symName? x).isNone) then none
-    else do
-      let (c, sf) ← genBegin rec body { scopes := 0, tail := true, funcname := name, next := s.next }
-      some (.fnOpen :: c ++ [.remScope, .fnClose], s.after sf)
-
-/-- the name GenSymbol("__anon") gives an anonymous function: no symbol a program can write -/
-def anonName : String := "__anon#"
+    else
+      let fname := if name = "" then anonName else if rebindsOwnName E name ps body then "" else name
+      do
+        let (c, sf) ← genBegin rec body { scopes := 0, tail := true, funcname := fname, next := s.next }
+        some (.fnOpen :: c ++ [.remScope, .fnClose], s.after sf)
 
 /-- GenerateForLoop: the loop is pushed on env.loopstack; body, init, test and increment are
 compiled by four sub-generators with Tail false and the scope count inside the loop's scope. -/
@@ -360,13 +445,13 @@ def genC (E : CEnv) : Nat → GenFn
               | _ => none
             else if f = "fn" then
               match args with
-              | .arr params :: body@(_ :: _) => genFun rec' anonName params body s
+              | .arr params :: body@(_ :: _) => genFun E rec' "" params body s
               | _ => none
             else if f = "defn" then
               match args with
               | .atom (.sym name) :: .arr params :: body@(_ :: _) =>
                 if E.builtin name || (E.macros name).isSome then none
-                else genFun rec' name params body s
+                else genFun E rec' name params body s
               | _ => none
             else if f = "begin" then genBegin rec' args s
             else if f = "let" || f = "letseq" then genLet rec' args s
